@@ -45,3 +45,39 @@ pub fn run(req: &Value) -> Value {
         Err(e) => json!({"err": format!("{e:?}"), "node_order": node_order}),
     }
 }
+
+/// C13 (edge extraction): a workspace with one composite buildpack `x/top` whose package.toml lists `uris` verbatim, plus one
+/// composite buildpack per expected libcnb id; returns the dependencies of x/top's graph node as the real code extracted them
+pub fn node_deps(req: &Value) -> Value {
+    let tmp = tempfile::tempdir().unwrap();
+    let ws = tmp.path();
+    let composite = |dir: &std::path::Path, id: &str, pkg: &str| {
+        std::fs::create_dir_all(dir).unwrap();
+        std::fs::write(
+            dir.join("buildpack.toml"),
+            format!("api = \"0.10\"\n\n[buildpack]\nid = \"{id}\"\nversion = \"0.0.1\"\n\n[[order]]\n[[order.group]]\nid = \"heroku/procfile\"\nversion = \"1.0.0\"\n"),
+        )
+        .unwrap();
+        std::fs::write(dir.join("package.toml"), pkg).unwrap();
+    };
+    let mut pkg = String::from("[buildpack]\nuri = \".\"\n");
+    for u in req["uris"].as_array().unwrap() {
+        pkg.push_str(&format!("\n[[dependencies]]\nuri = {}\n", serde_json::to_string(u.as_str().unwrap()).unwrap()));
+    }
+    composite(&ws.join("top"), "x/top", &pkg);
+    let mut seen: Vec<String> = vec![];
+    for (k, e) in req["expect"].as_array().unwrap().iter().enumerate() {
+        let id = e.as_str().unwrap().to_string();
+        if id != "x/top" && !seen.contains(&id) {
+            composite(&ws.join(format!("dep{k}")), &id, "[buildpack]\nuri = \".\"\n");
+            seen.push(id);
+        }
+    }
+    match build_libcnb_buildpacks_dependency_graph(ws) {
+        Ok(g) => {
+            let top = g.node_weights().find(|w| w.buildpack_id.as_str() == "x/top").unwrap();
+            json!({"deps": top.dependencies.iter().map(|d| d.to_string()).collect::<Vec<_>>()})
+        }
+        Err(e) => json!({"err": format!("{e:?}")}),
+    }
+}
